@@ -106,9 +106,9 @@ class ScriptedPeer(object):
             self._send(self._format(code, multi if multi is not None else [text]))
             return '2'
         elif out == '4':
-            code, lines = '451', ['4.3.0 scripted temporary failure at %s' % stage]
+            code, lines = '451', ['4.3.0 scripted temporary failure at %s%s' % (stage, self._tag())]
         elif out == '5':
-            code, lines = '550', ['5.3.0 scripted permanent failure at %s' % stage]
+            code, lines = '550', ['5.3.0 scripted permanent failure at %s%s' % (stage, self._tag())]
         elif out == '500':
             code, lines = '500', ['5.5.2 command not recognized']
         elif out == '421':
@@ -137,6 +137,12 @@ class ScriptedPeer(object):
             raise ValueError(out)
         self._send(self._format(code, lines))
         return out
+
+    def _tag(self):
+        """' for <sender>' inside a transaction: lets an oracle see whose transaction a reply belongs to"""
+        if self.tag_replies and self.cur is not None and self.cur.get('sender') is not None:
+            return ' for ' + self.cur['sender'].decode('latin-1')
+        return ''
 
     @staticmethod
     def _format(code, lines):
@@ -221,7 +227,7 @@ class ScriptedPeer(object):
                 i = len(self.cur['rcpts']) if self.cur else 0
                 ok = False
                 if self.cur is None or not self.cur['mail_ok']:
-                    self._send(b'503 5.5.1 need MAIL first\r\n')
+                    self._send(('503 5.5.1 need MAIL first%s\r\n' % self._tag()).encode('latin-1'))
                 else:
                     ok = self._reply('rcpt%d' % i, 'rcpt', '2.1.5 recipient ok') == '2'
                 if self.cur is not None:
@@ -229,7 +235,7 @@ class ScriptedPeer(object):
             elif word == b'DATA':
                 acc = [r for r, ok in self.cur['rcpts'] if ok] if self.cur and self.cur['mail_ok'] else []
                 if not acc:
-                    self._send(b'503 5.5.1 no valid recipients\r\n')
+                    self._send(('503 5.5.1 no valid recipients%s\r\n' % self._tag()).encode('latin-1'))
                     self.need_reset = True
                     continue
                 if self._reply('data', 'data', 'go ahead') != '2':
